@@ -6,6 +6,7 @@ import (
 	"fmt"
 	"go/constant"
 	"go/token"
+	"go/types"
 	"strings"
 
 	"golang.org/x/tools/go/ssa"
@@ -272,7 +273,7 @@ func checkFilter(r *Run, prog *Program, a *Anchors, pfx string) {
 				ok = isEx && ex.Index == 0
 				if ok {
 					c, isCall := ex.Tuple.(*ssa.Call)
-					ok = isCall && c.Call.StaticCallee() == a.CreateEv
+					ok = isCall && (c.Call.StaticCallee() == a.CreateEv || evaluatorCtorHelper(prog, a, c.Call.StaticCallee()))
 				}
 			}
 			r.Check(pfx+".filter-constructor", fa.Fn.Name()+":store:Filter."+fa.Field, prog.pos(fa.Instr.Pos()), ok, "Filter."+fa.Field+" must be set only by CreateFilter, to the evaluator CreateEvaluator returned")
@@ -397,4 +398,37 @@ func isCollectedKeyString(st *pstate, s, rv *Sym, n int64) bool {
 	}
 	b, o := linear(s.A.B)
 	return b == "" && o == n
+}
+
+// evaluatorCtorHelper: f is a helper of the constructors that CreateEvaluator itself returns the result of (the part the
+// two constructors share): what it returns is an evaluator made the way CreateEvaluator makes one.
+func evaluatorCtorHelper(prog *Program, a *Anchors, f *ssa.Function) bool {
+	if f == nil || !prog.ctorHelper(a, f, 0) || f.Signature.Results().Len() != 2 {
+		return false
+	}
+	pt, ok := f.Signature.Results().At(0).Type().Underlying().(*types.Pointer)
+	if !ok || !namedIs(pt.Elem(), modPath, "Evaluator") {
+		return false
+	}
+	// CreateEvaluator returns this helper's result as it is
+	for _, b := range a.CreateEv.Blocks {
+		for _, ins := range b.Instrs {
+			ret, ok := ins.(*ssa.Return)
+			if !ok || len(ret.Results) != 2 {
+				continue
+			}
+			for _, rv := range ret.Results {
+				ex, isEx := rv.(*ssa.Extract)
+				if !isEx {
+					return false
+				}
+				c, isCall := ex.Tuple.(*ssa.Call)
+				if !isCall || c.Call.StaticCallee() != f {
+					return false
+				}
+			}
+			return true
+		}
+	}
+	return false
 }
